@@ -10,6 +10,10 @@
 (***************************************************************************)
 EXTENDS ScalarBytes, SequencesExt, FiniteSetsExt, TLC, Json, IOUtils
 CONSTANTS Dense          \* every value below Dense is in B
+\* integer constants occurring in the sources of the tree under test (tools/vlib.py mined_constants),
+\* one {"w": [8 little-endian bytes]} per line of IOEnv.MINED
+MinedRecs == ndJsonDeserialize(IOEnv.MINED)
+Mined == {MinedRecs[i].w : i \in 1..Len(MinedRecs)}
 
 Near(w) == {w, Add(w, W(1)), Add(w, W(2)), Sub(w, W(1)), Sub(w, W(2))}
 BDoc == UNION {Near(DocMax(f, n)) : <<f, n>> \in {<<g, m>> \in Families \X (1..9) : m >= MinLen(g) /\ m <= MaxLen(g)}}
@@ -25,7 +29,8 @@ BPat == {[i \in 1..8 |-> IF i = p THEN b ELSE c] : <<p, b, c>> \in (1..8) \X {1,
          \cup {[i \in 1..8 |-> IF i <= p THEN 128 ELSE 0] : p \in 1..8}
          \cup {[i \in 1..8 |-> IF i <= p THEN 127 ELSE 0] : p \in 1..8}
 BSmall == {W(n) : n \in 0..(Dense - 1)}
-B == BDoc \cup BVar \cup BPow \cup BPat \cup BSmall \cup {Zero, AllOnes}
+BMined == UNION {Near(m) : m \in Mined}
+B == BDoc \cup BVar \cup BPow \cup BPat \cup BSmall \cup BMined \cup {Zero, AllOnes}
 BSeq == SetToSortSeq(B, Lt)
 NB == Len(BSeq)
 
